@@ -13,7 +13,7 @@ that an operation on well-formed storage yields the well-formed storage of the n
 All statements are for every element type, every grid (any number of rows / columns incl. zero,
 any cell lengths), every index expression and every program — no bounds.
 -/
-import TFVerif.Proofs.RaggedMET
+import TFVerif.Proofs.RaggedCanon
 
 namespace TFVerif.C05
 
@@ -148,6 +148,63 @@ example : (MNT.ofGrid g32).select (.slice (some 1) (some 100) none) 0
     = some (MNT.ofGrid { numCols := 2, rows := [[[4], [5, 6, 7]], [[8, 9], []]] }) := by decide
 example : (MNT.ofGrid g32).select (.int 3) 0 = none ∧ (MNT.ofGrid g32).select (.slice none none (some 0)) 1 = none := by decide
 
+/-! ### every well-formed container -/
+
+/-- **Well-formed storage is canonical.** A container satisfies the representation invariant
+    (`offset` has `rows·cols + 1` entries, starts at 0, is monotone and ends at `len(values)`) iff it is
+    the canonical storage of a well-formed grid — namely of the grid of its own cells. So the theorems
+    above, stated for `MNT.ofGrid g`, speak about every well-formed container. -/
+theorem mnt_wellformed_iff_canonical {α : Type} (m : MNT α) :
+    m.WFRep ↔ (m = MNT.ofGrid m.grid ∧ m.grid.WF) := by
+  constructor
+  · exact wfrep_canonical m
+  · rintro ⟨h1, h2⟩; rw [h1]; exact wfrep_ofGrid _ h2
+
+/-- **One selection on any well-formed container**: the cells of the result are the nested-list
+    selection of the cells of the source, the result is well-formed again, and it raises exactly
+    when the nested-list selection raises. -/
+theorem mnt_select_refines_wf {α : Type} (m : MNT α) (hm : m.WFRep) (ix : Index) (dim : Nat)
+    (hd : dim = 0 ∨ dim = 1) :
+    (m.select ix dim = none ↔ m.grid.select ix dim = none) ∧
+    (∀ m', m.select ix dim = some m' → m'.WFRep ∧ m.grid.select ix dim = some m'.grid) := by
+  obtain ⟨hcan, hwf⟩ := wfrep_canonical m hm
+  have href := select_ofGrid m.grid hwf ix dim hd
+  rw [← hcan] at href
+  constructor
+  · rw [href]; cases m.grid.select ix dim <;> simp
+  · intro m' hm'
+    rw [href] at hm'
+    cases hs : m.grid.select ix dim with
+    | none => simp [hs] at hm'
+    | some g' =>
+      simp only [hs, Option.map_some, Option.some.injEq] at hm'
+      have hw' := select_WF m.grid g' hwf ix dim hs
+      subst hm'
+      exact ⟨wfrep_ofGrid g' hw', by rw [grid_ofGrid g' hw']⟩
+
+/-- **Programs on any well-formed container.** -/
+theorem mnt_chain_refines_wf {α : Type} (m : MNT α) (hm : m.WFRep) (prog : List (Index × Nat))
+    (hd : ∀ p ∈ prog, p.2 = 0 ∨ p.2 = 1) :
+    (m.run prog = none ↔ m.grid.run prog = none) ∧
+    (∀ m', m.run prog = some m' → m'.WFRep ∧ m.grid.run prog = some m'.grid) := by
+  obtain ⟨hcan, hwf⟩ := wfrep_canonical m hm
+  have href := run_ofGrid m.grid hwf prog hd
+  rw [← hcan] at href
+  constructor
+  · rw [href]; cases m.grid.run prog <;> simp
+  · intro m' hm'
+    rw [href] at hm'
+    cases hs : m.grid.run prog with
+    | none => simp [hs] at hm'
+    | some g' =>
+      simp only [hs, Option.map_some, Option.some.injEq] at hm'
+      have hw' := run_WF m.grid g' hwf prog hs
+      subst hm'
+      exact ⟨wfrep_ofGrid g' hw', by rw [grid_ofGrid g' hw']⟩
+
+example : (MNT.WFRep ({ numRows := 1, numCols := 2, values := [8, 9], offset := [0, 0, 2] } : MNT Nat)) :=
+  ⟨rfl, rfl, rfl, by decide⟩
+
 /-! ### MultiEmbeddingTensor -/
 
 /-- **One selection** (embedding container; along columns the widths are selected alongside). -/
@@ -185,6 +242,35 @@ theorem met_getitem_cell {α : Type} (w : WGrid α) (hw : w.WF) (i j : Int) :
       (normIndex w.grid.rows.length i).bind fun i' => (normIndex w.grid.numCols j).map fun j' =>
         (w.grid.rows.getD i' []).getD j' [] :=
   met_getValue_ofW w hw i j
+
+/-- **canonicity and selection for every well-formed embedding container.** -/
+theorem met_wellformed_canonical {α : Type} (m : MET α) (h : m.WFRep) (hmono : m.offset.Pairwise (· ≤ ·)) :
+    m = MET.ofW { grid := m.grid, widths := m.colWidths } ∧
+    (WGrid.WF { grid := m.grid, widths := m.colWidths }) :=
+  met_wfrep_canonical m h hmono
+
+theorem met_select_refines_wf {α : Type} (m : MET α) (hm : m.WFRep) (hmono : m.offset.Pairwise (· ≤ ·))
+    (ix : Index) (dim : Nat) (hd : dim = 0 ∨ dim = 1) :
+    (m.select ix dim = none ↔ m.grid.select ix dim = none) ∧
+    (∀ m', m.select ix dim = some m' →
+      m'.WFRep ∧ m'.offset.Pairwise (· ≤ ·) ∧ m.grid.select ix dim = some m'.grid) := by
+  obtain ⟨hcan, hwf⟩ := met_wfrep_canonical m hm hmono
+  have href := met_select_ofW _ hwf ix dim hd
+  rw [← hcan] at href
+  have hgrid := met_select_grid { grid := m.grid, widths := m.colWidths } ix dim
+  simp only at hgrid
+  constructor
+  · rw [href, ← hgrid]; cases WGrid.select { grid := m.grid, widths := m.colWidths } ix dim <;> simp
+  · intro m' hm'
+    rw [href] at hm'
+    cases hs : WGrid.select { grid := m.grid, widths := m.colWidths } ix dim with
+    | none => simp [hs] at hm'
+    | some w' =>
+      simp only [hs, Option.map_some, Option.some.injEq] at hm'
+      have hw' := met_select_WF _ w' hwf ix dim hd hs
+      subst hm'
+      refine ⟨met_wfrep_ofW w' hw', met_ofW_mono w', ?_⟩
+      rw [← hgrid, hs, Option.map_some, met_grid_ofW w' hw']
 
 def w23 : WGrid Nat :=
   { grid := { numCols := 3, rows := [[[1, 2, 3], [4, 5], [6]], [[7, 8, 9], [10, 11], [12]]] }, widths := [3, 2, 1] }
